@@ -117,7 +117,8 @@ def replay(ctx, label, groups, pkg=PKG, test="^TestVerifC02Replay$", timeout=150
                    sum(1 for m in mism if m.get("fam") == fam)))
         for g in gs:
             if len(g["runs"]) > 1 and any(x for r in g["runs"] for x in r["script"]):
-                ctx.sample({"kind": "tlc-case:" + fam, "cfg": g["cfg"], "verdict": g["verdict"], "run": g["runs"][-1]}, cap=6)
+                ctx.sample({"kind": "tlc-case:" + fam, "cfg": g["cfg"], "verdict": g["verdict"],
+                            "run": max(g["runs"], key=lambda r: sum(1 for x in r["script"] if x))}, cap=6)
                 break
     nruns = sum(len(g["runs"]) for g in groups)
     if s["configs"] != len(groups):
